@@ -183,6 +183,9 @@ CORPUS += [
 G_ = "rl4co/envs/graph/"
 CORPUS += [
     # ---------------------------------------------------------------- C03
+    V("C03", "svrp-empty-route-skips-technician", "rl4co/envs/routing/svrp/env.py", '            costs[batch, start:end] = self.tech_costs[tech]\n            tech += 1', '            if end - start == 1:\n                start = end\n                continue\n            costs[batch, start:end] = self.tech_costs[tech]\n            tech += 1', 'C03.g'),
+    V("C03", "svrp-technician-advances-conditionally", "rl4co/envs/routing/svrp/env.py", '            costs[batch, start:end] = self.tech_costs[tech]\n            tech += 1', '            costs[batch, start:end] = self.tech_costs[tech]\n            if end - start > 1:\n                tech += 1', 'C03.g'),
+    V("C03", "svrp-rate-of-next-technician", "rl4co/envs/routing/svrp/env.py", '            costs[batch, start:end] = self.tech_costs[tech]\n            tech += 1', '            tech += 1\n            costs[batch, start:end] = self.tech_costs[tech]', 'C03.g'),
     V("C03", "mdcpdp-last-return-charged-in-open-mode", "rl4co/envs/routing/mdcpdp/env.py", '        if self.problem_mode == "close":\n            last_leg', '        if True:\n            last_leg', 'C03.d'),
     V("C03", "mdcpdp-last-return-only-in-open-mode", "rl4co/envs/routing/mdcpdp/env.py", '        if self.problem_mode == "close":\n            last_leg', '        if self.problem_mode == "open":\n            last_leg', 'C03.d'),
     V("C03", "eq-mdcpdp-last-return-not-open", "rl4co/envs/routing/mdcpdp/env.py", '        if self.problem_mode == "close":\n            last_leg', '        if self.problem_mode != "open":\n            last_leg', None),
